@@ -106,7 +106,7 @@ def showErr : Err → String
   | .notAuthorized => "err:notauthorized"
 
 def showAuthorization (d : Authorization) : String :=
-  s!"ok {showDecision d.decision} used={showCsv (d.authoritiesUsed.map showAuthId)} unr={show01 d.unrestricted} cons={showCons d.constraints} obl={showObl d.obligations} pol={showStr d.policyId}@{d.policyVersion}"
+  s!"ok {showDecision d.decision} used={showCsv (d.authoritiesUsed.map showAuthId)} unr={show01 d.unrestricted} cons={showCons d.constraints} obl={showObl d.obligations} pol={showStr d.policyId}@{d.policyVersion} why={d.stage}"
 
 def parseStatements : Nat → List String → Option (List Statement × List String)
   | 0, r => some ([], r)
